@@ -104,6 +104,7 @@ package logdb
 //@ ghostset gIOFailed := old(gIOFailed) || result != nil
 //@ extern github.com/lni/dragonboat/v4/internal/logdb/kv (s IKVStore) CommitWriteBatch
 //@ ghostset gIOFailed := old(gIOFailed) || result != nil
+//@ ghostset gBatchCommits := old(gBatchCommits) + ite(result == nil, 1, 0)
 //@ extern github.com/lni/dragonboat/v4/internal/logdb/kv (s IKVStore) SaveValue
 //@ ghostset gIOFailed := old(gIOFailed) || result != nil
 //@ extern github.com/lni/dragonboat/v4/internal/logdb/kv (s IKVStore) DeleteValue
@@ -123,12 +124,13 @@ package logdb
 //@ ensures gIOFailed && !old(gIOFailed) ==> result1 != nil
 //@ ensures old(gIOFailed) ==> gIOFailed
 
-//@ func (r *db) saveSnapshot [C10]
+//@ func (r *db) saveSnapshot [C10 C20]
 //@ noframe
 //@ requires r.kvs != nil
-//@ modifies gIOFailed
+//@ modifies gIOFailed, gRecSnapshot
 //@ ensures gIOFailed && !old(gIOFailed) ==> result != nil
 //@ ensures old(gIOFailed) ==> gIOFailed
+//@ ghostset gRecSnapshot := ite(result == nil && ud.Snapshot.Index != 0 && ud.Snapshot.Index == gSnapIndex, 1, old(gRecSnapshot))
 
 //@ func (r *db) saveState [C10]
 //@ trusted writes into the in-memory write batch only (no store I/O)
@@ -240,3 +242,46 @@ package logdb
 //@ modifies gIOFailed
 //@ ensures gIOFailed && !old(gIOFailed) ==> result != nil
 //@ loop 1 invariant gIOFailed == old(gIOFailed) && r.kvs != nil && r.cs != nil
+
+// ---------------------------------------------------------------- importing a snapshot into the log store (C20)
+// The write batch is abstracted by the last operation it holds on each record of the replica:
+// 0 none, 1 put, 2 delete. gSnapIndex is the index of the snapshot record being tracked.
+// From the property: a successful import leaves the bootstrap record, the state, the snapshot
+// record of the imported snapshot and the max index written, in one committed batch.
+//@ ghost var gSnapIndex int
+//@ ghost var gRecSnapshot int
+//@ ghost var gRecBootstrap int
+//@ ghost var gRecState int
+//@ ghost var gRecMaxIndex int
+//@ ghost var gBatchCommits int
+
+//@ func (r *db) saveBootstrap [C20]
+//@ trusted seven-line body: marshals the bootstrap record and puts it into the batch
+//@ modifies gRecBootstrap
+//@ ghostset gRecBootstrap := 1
+//@ func (r *db) saveStateAllocs [C20]
+//@ trusted five-line body: marshals the state and puts it into the batch
+//@ modifies gRecState
+//@ ghostset gRecState := 1
+//@ func (r *db) saveMaxIndex [C20]
+//@ trusted puts the max index record into the batch
+//@ modifies gRecMaxIndex
+//@ ghostset gRecMaxIndex := 1
+//@ func (r *db) saveRemoveNodeData [C20]
+//@ trusted deletes the state, bootstrap and max index records and the listed snapshot records from the batch
+//@ modifies gRecState, gRecBootstrap, gRecMaxIndex, gRecSnapshot
+//@ ghostset gRecState := 2
+//@ ghostset gRecBootstrap := 2
+//@ ghostset gRecMaxIndex := 2
+//@ ghostset gRecSnapshot := ite(exists i int :: 0 <= i && i < len(snapshots) && snapshots[i].Index == gSnapIndex, 2, old(gRecSnapshot))
+
+//@ func (r *db) importSnapshot [C20 C10]
+//@ noframe
+//@ nobounds
+//@ requires r.kvs != nil && r.cs != nil
+//@ requires gSnapIndex == ss.Index && ss.Index != 0 && gRecSnapshot == 0 && gRecBootstrap == 0 && gRecState == 0 && gRecMaxIndex == 0
+//@ modifies gIOFailed, gRecSnapshot, gRecBootstrap, gRecState, gRecMaxIndex, gBatchCommits
+//@ ensures result == nil ==> gRecSnapshot == 1 && gRecBootstrap == 1 && gRecState == 1 && gRecMaxIndex == 1
+//@ ensures result == nil ==> gBatchCommits == old(gBatchCommits) + 1
+//@ ensures gIOFailed && !old(gIOFailed) ==> result != nil
+//@ loop 1 invariant gIOFailed == old(gIOFailed) && gRecSnapshot == 0 && gRecBootstrap == 0 && gRecState == 0 && gRecMaxIndex == 0 && gBatchCommits == old(gBatchCommits) && r.kvs != nil
